@@ -246,10 +246,10 @@ def expected_ops(o):
     for x in o["ops"]:
         if x["t"] == "r": res.append(("r", reg_name(x["c"], x["id"])))
         elif x["t"] == "m":
-            base = "rip" if x["bt"] == "rip" else (reg_name(x["bt"], x["b"]) if x["bt"] else None)
+            base = "rip" if x["bt"] == "rip" else "<label>" if x["bt"] == "lbl" else (reg_name(x["bt"], x["b"]) if x["bt"] else None)
             index = reg_name(x["it"], x["i"]) if x["it"] else None
             res.append(("m", {"seg": [None, "es", "cs", "ss", "ds", "fs", "gs"][x["sg"]], "base": base, "index": index, "scale": 1 << x["sh"],
-                              "disp": int(x["dv"]), "at": x["at"], "bc": x["bc"]}))
+                              "disp": int(x["dv"]), "at": x["at"], "bc": x["bc"], "ld": x.get("ld", 0), "len": len(o["b"])}))
         elif x["t"] == "i": res.append(("i", int(x["iv"])))
         else: res.append(("l", x["id"]))
     return res
@@ -257,6 +257,14 @@ def expected_ops(o):
 
 def mem_same(e, d, mode, lea=False, a67=False):
     if d is None: return None
+    if e["base"] == "<label>":
+        # [label + off]: a decoder cannot know the label - compare the address its output designates (64-bit: rip = end of the instruction,
+        # both decoders print the rip-relative displacement) with the recorded label position + offset, relative to the instruction start;
+        # 32-bit: relocated absolute placeholder, only the form (no base, same index) is comparable
+        if mode == 64:
+            dd = d["disp"] - (1 << 64) if d["disp"] >= (1 << 63) else d["disp"]          # objdump prints a negative rip displacement as an unsigned 64-bit number
+            return d["base"] == "rip" and d["index"] is None and e["len"] + dd == e["ld"] + e["disp"]
+        return d["base"] is None and d["index"] == e["index"] and (d["index"] is None or d["scale"] == e["scale"])
     asz = 64 if mode == 64 else 32
     for r in (e["base"], e["index"]):
         if r in GP32 and mode == 64: asz = 32
@@ -280,7 +288,7 @@ def mem_same(e, d, mode, lea=False, a67=False):
 
 PROMOTE = {"vpand": "vpandd", "vpandn": "vpandnd", "vpor": "vpord", "vpxor": "vpxord", "vmovdqa": "vmovdqa32", "vmovdqu": "vmovdqu32"}
 # decoders print another register width for these (selector / sign-extension sources) or omit the register operand
-RELAX_REGSIZE = {"lea", "lsl", "lar", "movsxd", "nop", "str", "sldt", "smsw", "lldt", "ltr", "lmsw", "verr", "verw", "arpl", "movzx", "movsx", "mov"}
+RELAX_REGSIZE = {"and", "lea", "lsl", "lar", "movsxd", "nop", "str", "sldt", "smsw", "lldt", "ltr", "lmsw", "verr", "verw", "arpl", "movzx", "movsx", "mov"}
 
 
 def reg_number(r):
@@ -315,6 +323,8 @@ def compare(o, parsed, immw=64, optional=(), decoder="llvm"):
     eregs = [x[1] for x in exp if x[0] == "r"]
     dregs = [x[1] for x in dec if x[0] == "r"]
     dregs = ["st(0)" if r == "st" else r for r in dregs]
+    if want == "xchg":
+        eregs, dregs = sorted(eregs), sorted(dregs)          # symmetric: the decoders may print the operands in the other order
     if want in RELAX_REGSIZE:
         eregs, dregs = [reg_number(r) for r in eregs], [reg_number(r) for r in dregs]
         optional = tuple(range(len(exp)))
@@ -323,6 +333,8 @@ def compare(o, parsed, immw=64, optional=(), decoder="llvm"):
         it = iter(b)
         return all(any(x == y for y in it) for x in a)
     mand = [x[1] for j, x in enumerate(exp) if x[0] == "r" and j not in optional]
+    if want == "xchg": mand = sorted(mand)
+    if want in RELAX_REGSIZE: mand = [reg_number(r) for r in mand]
     if not ((subseq(eregs, dregs) or subseq(dregs, eregs)) and subseq(mand, dregs)):
         return f"DISAGREE:registers {dregs} vs requested {eregs}"
     emem = [x[1] for x in exp if x[0] == "m"]
@@ -377,7 +389,7 @@ def judge_lines(o, lines, consumed_ok, immw, optional, dec="llvm"):
     lines = [l for l in lines if l]
     if not lines: return "DISAGREE:no instruction"
     if not consumed_ok: return "DISAGREE:decoded length differs from the number of bytes appended: " + " ; ".join(lines)
-    main = [l for l in lines if not re.match(PFX_LINE, l.lower())]
+    main = [l for l in lines if not re.match(PFX_LINE, l.lower()) or re.match(r"^f?wait$", l.lower())]      # (f)wait is an instruction of its own
     if len(main) == 0: return "DISAGREE:no instruction"
     if len(main) == 2 and re.match(r"^f?wait$", main[0].lower()) and o["n"].startswith("f") and not o["n"].startswith("fn"):
         main = [("f" + main[1].lstrip()[2:]) if main[1].lower().startswith("fn") else main[1]]       # wait + fnXXX = fXXX
@@ -422,7 +434,7 @@ def opstr(x):
     s = {0: "", 1: "byte ", 2: "word ", 4: "dword ", 8: "qword ", 16: "xmmword ", 32: "ymmword ", 64: "zmmword "}.get(x["sz"], f"m{x['sz']} ")
     s += ["", "es:", "cs:", "ss:", "ds:", "fs:", "gs:"][x["sg"]] + "["
     parts = []
-    if x["bt"]: parts.append("rip" if x["bt"] == "rip" else reg_name(x["bt"], x["b"]))
+    if x["bt"]: parts.append("rip" if x["bt"] == "rip" else f"L({x.get('ld', 0):+d})" if x["bt"] == "lbl" else reg_name(x["bt"], x["b"]))
     if x["it"]: parts.append(f"{reg_name(x['it'], x['i'])}*{1 << x['sh']}")
     if int(x["dv"]) or not parts: parts.append(x["dv"])
     return s + "+".join(parts).replace("+-", "-") + "]" + (f"{{1to{x['bc']}}}" if x["bc"] else "") + ["", "{abs}", "{rel}"][x["at"]]
@@ -498,6 +510,8 @@ def reject_key(o, clause, row, forms, names):
     b = o["b"]
     if clause == "longer-than-15":
         return "class:instruction-longer-than-15-bytes"
+    if clause in ("label-memory-displacement", "label-memory-form"):
+        return f"class:{clause}:m{o['m']}"          # [label + off] operands: one root cause spans every instruction with a memory operand
     if clause == "modrm-rm-fixed" and row["rmfix"] == 4:
         return "class:forced-sib-operand-emitted-without-sib"
     if o["m"] == 64 and any(0x40 <= b[j] <= 0x4F and b[j + 1] in (0x67, 0x26, 0x2E, 0x36, 0x3E, 0x64, 0x65) for j in range(len(b) - 1)) and clause == "length":
@@ -767,7 +781,7 @@ def run(ctx):
     sample, stats, quirks, bad = validate_spec(ctx, forms, ok_obs, ctx.seed)
     def limit(o):       # unknown to llvm-mc 14 / objdump 2.40: newer extensions, APX-promoted EVEX forms of kmov
         if o["n"].startswith("bnd") and any(x["t"] == "m" and ((x["bt"] or x["it"]) in ("gpw", "gpd" if o["m"] == 64 else "gpw") or
-                                                               (o["m"] == 64 and (x["bt"] in ("", "rip")))) for x in o["ops"]):
+                                                               (o["m"] == 64 and (x["bt"] in ("", "rip", "lbl")))) for x in o["ops"]):
             return True         # MPX has no 16-bit addressing (#UD) and ignores 0x67 in 64-bit mode: whether the assembler should accept it is C13's question
         return bool(DECODER_LIMITS.match(o["n"])) or (o["n"].startswith("kmov") and 0x62 in o["b"][:3])
     limits = [b for b in bad if limit(b[0])]
